@@ -57,6 +57,9 @@ CHECKS = {
   'C18': dict(category='other', technique='symbolic scalars (z3 Real; Float64 bit-vector term + rounding-error-model term) executed through the real scales.py / pint / xarray_utils code, numpy integer cast captured; QF_NRA, QF_BVFP (z3 then cvc5) and QF_LIRA queries',
               text='Scale laws (inverse, unit independence, products/quotients/powers) for ALL magnitudes and ALL positive base scales; whole-second durations and minute-resolution datetimes through the real conversion code decided bit-precisely on a bounded range (both signs) and by the rounding-error model up to 2^26 minutes; orbital phases from symbolic day-of-year/hour/minute.',
               design='§3 C18'),
+  'C19': dict(category='exploration', technique='element-id symbolic execution of the traced tree utilities / resampling (exact identity queries); CrossHair symbolic execution (z3) of the real dictionary utilities over symbolic keys and separators; enumerated attribute/dataset round trips',
+              text='pack/unpack, stack/unstack, split/concat, split_axis and spectral up/down-sampling are exact identities for ALL leaf values on enumerated tree shapes (up-sampling tied to the analytic basis); flatten/unflatten explored by CrossHair per tree shape with symbolic keys (<= 2 chars) and separator within a time budget, counterexamples replayed; coordinate-system attrs and dataset dimension names on enumerated configurations.',
+              design='§3 C19'),
   'C13': dict(category='other', technique='symbolic execution of the traced jaxpr + QF_LRA queries (monomial abstraction for bilinear clauses)',
               text='Bounded symbolic verification of the sigma calculus identities for ALL column data and vertical velocities on each enumerated level set (even, dyadic uneven, seeded random), axis and shape.',
               design='§3 C13'),
